@@ -399,3 +399,14 @@ func Shapes08() (int, string) {
 	}
 	return n, ""
 }
+
+var P08s = core.Register(core.Prop[Enum]{
+	ID:   "C08.shapes",
+	Rule: "all 256 zero / non-zero patterns of the eight pieces, written without compression, in a special and a non-special URL: the serializer's choice of the run to compress is enumerated completely (exhaustive)",
+	Gen:  func(t *rapid.T) Enum { return Enum{} },
+	Check: func(_ Enum, r *core.Rec) {
+		if _, msg := Shapes08(); msg != "" {
+			r.Failf("%s", msg)
+		}
+	},
+})
